@@ -15,6 +15,12 @@ pub struct Pool {
     pub vals: std::collections::VecDeque<Vec<u8>>,
     #[cfg(not(kani))]
     pub underflow: bool,
+    /// native witness search: when set, draws beyond the recorded values are generated (small
+    /// alphabet, so that ids collide) and every draw is recorded in `trace`
+    #[cfg(not(kani))]
+    pub search: Option<u64>,
+    #[cfg(not(kani))]
+    pub trace: Vec<Vec<u8>>,
     pub draws: usize,
 }
 
@@ -25,7 +31,24 @@ impl Pool {
     }
     #[cfg(not(kani))]
     pub fn from_vals(v: Vec<Vec<u8>>) -> Pool {
-        Pool { vals: v.into(), underflow: false, draws: 0 }
+        Pool { vals: v.into(), underflow: false, search: None, trace: Vec::new(), draws: 0 }
+    }
+    /// A pool that GENERATES its draws (xorshift from `seed`): used after the solver has reported a
+    /// failed obligation, to materialise a concrete input that fails it natively. Ids come from a
+    /// small alphabet so that the aliasing patterns the bugs need (request id = stored id, two
+    /// clients quoting the same id) are likely; the verdict itself is the solver's.
+    #[cfg(not(kani))]
+    pub fn searching(seed: u64) -> Pool {
+        Pool { vals: Default::default(), underflow: false, search: Some(seed | 1), trace: Vec::new(), draws: 0 }
+    }
+    #[cfg(not(kani))]
+    fn rnd(&mut self) -> u64 {
+        let mut x = self.search.unwrap();
+        x ^= x << 13;
+        x ^= x >> 7;
+        x ^= x << 17;
+        self.search = Some(x);
+        x
     }
     #[cfg(not(kani))]
     fn next<const K: usize>(&mut self) -> [u8; K] {
@@ -33,7 +56,28 @@ impl Pool {
         let mut out = [0u8; K];
         match self.vals.pop_front() {
             Some(v) if v.len() == K => out.copy_from_slice(&v),
-            Some(_) | None => self.underflow = true,
+            Some(_) => self.underflow = true,
+            None => {
+                if self.search.is_some() {
+                    let r = self.rnd();
+                    let small = (r >> 8) % 100 < 85;
+                    if K == 16 {
+                        // ids: nil rarely, otherwise one of a handful of values (in the upper and in
+                        // the lower half, so that the v4 bit pattern forced on RNG values keeps them apart)
+                        let pick = (r >> 16) % 9;
+                        let v: u128 = if pick == 0 { 0 } else if small { (pick as u128) << 100 | pick as u128 } else { ((self.rnd() as u128) << 64) | self.rnd() as u128 };
+                        out.copy_from_slice(&v.to_le_bytes()[..K]);
+                    } else {
+                        let v: u64 = if small { (r >> 16) % 9 } else { self.rnd() };
+                        out.copy_from_slice(&v.to_le_bytes()[..K]);
+                    }
+                } else {
+                    self.underflow = true;
+                }
+            }
+        }
+        if self.search.is_some() {
+            self.trace.push(out.to_vec());
         }
         out
     }
